@@ -16,6 +16,17 @@ Ops
 * frames: `upd sym U u pu | p:a … | p:a …` (text), `bin sym U u pu | … | …` (binary), `bad i` (undeserialisable
   text), `ping`, `pong`, `raw`, `close`, `err kind`
 
+* `depth k n`                           the REST snapshots of instrument `k` hold the best `n` levels per side only (the code's
+                                        fetchers request `limit=100`): from then on every observation also carries, after the
+                                        `book` lines, one line `lv<k>:<b|a>:<price> <amount>` per price of `venue k` (per side,
+                                        ascending) = the managed book's amount at that price (0: no level); `spec` states
+                                        them at exactly the prices the snapshot covers, an admitted update wrote or the venue
+                                        changed since the snapshot id (`Props.C06E.pipeline_book_is_truth_on`)
+
+The `book` / `lv` lines of `model` are the manager's cells run with `upsert_single`'s real binary search
+(`Result.booksBS`, C05M's `upsertBS`); they are the pipeline model's `books` whenever every snapshot side is
+strictly ordered (`Props.C06E.books_follow_the_code_search`).
+
 After `open`, `f`, `eos` the WHOLE pipeline is run from scratch on the input so far; observations:
 `fin …`, the new `ev …` (stream events the manager received) and `he …` (handler calls) since the previous
 observation, the totals `notices n` / `nerr n`, and `book<k> seq | bids | asks` for every managed book.
@@ -157,6 +168,13 @@ def fmtBooks (books : Books) : List String :=
 
 def policy : Streams.Policy := ⟨125, 2, 60000⟩
 
+def sideTag : Side → String
+  | .bids => "b"
+  | .asks => "a"
+
+def lvKey (k : Nat) (sd : Side) (p : Rat) : String :=
+  "lv" ++ toString k ++ ":" ++ sideTag sd ++ ":" ++ fmtRat p
+
 structure Draft where
   snapshots : List MarketEv := []
   buffered : List WsMessage := []
@@ -169,6 +187,19 @@ structure MSt where
   draft : Draft := {}
   seenEvents : Nat := 0
   seenHandled : Nat := 0
+  /-- `venue k` ops (only the price universe of the `lv` lines is read from them) -/
+  venues : List (Nat × Venue) := []
+  /-- instruments with a declared REST depth -/
+  depths : List Nat := []
+
+/-- per-level observation of the managed books of the instruments with a declared depth -/
+def MSt.lvLines (s : MSt) (books : Books) : List String :=
+  books.flatMap fun (k, b) =>
+    if s.depths.contains k then
+      [Side.bids, Side.asks].flatMap fun sd =>
+        (uniPrices ((s.venues.lookup k).getD []) sd).map fun p =>
+          lvKey k sd p ++ " " ++ fmtRat (abs (sideOf b sd) p)
+    else []
 
 def countNotices (evs : List StreamEvent) : Nat :=
   (evs.filter fun e => match e with | .reconnecting => true | _ => false).length
@@ -181,7 +212,7 @@ def MSt.observe (s : MSt) : MSt × List String :=
   ({ s with seenEvents := r.events.length, seenHandled := r.handled.length },
     [fmtFin r.fin] ++ newEv.map fmtEvent ++ newHe.map fmtHandled ++
       ["notices " ++ toString (countNotices r.events), "nerr " ++ toString r.handled.length] ++
-      fmtBooks r.books)
+      fmtBooks (r.booksBS s.books0) ++ s.lvLines (r.booksBS s.books0))
 
 /-- the last connection of the input, changed by `g`; `none` when there is none or it has ended -/
 def modifyLast (conns : List ConnInput) (g : ConnInput → ConnInput) : Option (List ConnInput) :=
@@ -202,7 +233,11 @@ def model : Drv MSt where
       | _, _, _ => (s, ["bad-op"])
     | "venue" :: k :: cs =>
       match k.toNat?, parseChanges? cs with
-      | some _, some _ => (s, [])
+      | some k, some cs => ({ s with venues := (k, cs) :: s.venues }, [])
+      | _, _ => (s, ["bad-op"])
+    | ["depth", k, n] =>
+      match k.toNat?, n.toNat? with
+      | some k, some _ => ({ s with depths := k :: s.depths }, [])
       | _, _ => (s, ["bad-op"])
     | "snap" :: body =>
       match parseSnap? body with
@@ -248,8 +283,12 @@ def SSt.observe (s : SSt) : List String :=
   match o.fin with
   | .pending =>
     [fmtFin o.fin, "notices " ++ toString o.notices, "nerr " ++ toString o.errors] ++
-      ((o.insts.filter fun i => i.constrained && decide (i.key < s.m)).map fun i =>
-        "book" ++ toString i.key ++ " " ++ fmtBook i.expected)
+      ((o.insts.filter fun i => i.constrained && i.full && decide (i.key < s.m)).map fun i =>
+        "book" ++ toString i.key ++ " " ++ fmtBook i.expected) ++
+      ((o.insts.filter fun i => i.constrained && i.limit.isSome && decide (i.key < s.m)).flatMap fun i =>
+        [Side.bids, Side.asks].flatMap fun sd =>
+          ((uniPrices i.venue sd).filter (i.known sd)).map fun p =>
+            lvKey i.key sd p ++ " " ++ fmtRat (i.expectedAt sd p))
   | f => [fmtFin f]
 
 def spec : Drv SSt where
@@ -266,6 +305,12 @@ def spec : Drv SSt where
       | some k, some cs =>
         ({ s with oracle := { s.oracle with insts := s.oracle.insts.map fun i =>
             if i.key = k then { i with venue := cs } else i } }, [])
+      | _, _ => (s, ["bad-op"])
+    | ["depth", k, n] =>
+      match k.toNat?, n.toNat? with
+      | some k, some n =>
+        ({ s with oracle := { s.oracle with insts := s.oracle.insts.map fun i =>
+            if i.key = k then { i with limit := some n } else i } }, [])
       | _, _ => (s, ["bad-op"])
     | "snap" :: body =>
       match parseSnap? body with
